@@ -192,6 +192,25 @@ def check(facts, rep, tier, cfg):
                                             gan = strip(gtr.operand(gt["args"][1]))
                                             if gan.kind == "agg" and gan[2] == parent.dp and any(x.kind == "call" and x[6] == "handshake" for x in walk(gtr.operand(gt["args"][0]))):
                                                 ok = True
+                # the reset acts on the loop's own generator: inside a closure the receiver is a dereferenced (by-reference) capture
+                if b.kind == "Closure":
+                    recv_l = (t["args"][0].get("p") or {}).get("l")
+                    byref = None
+                    for blk2 in b.blocks:
+                        for s2 in blk2["stmts"]:
+                            if s2["k"] == "Assign" and s2["lhs"]["l"] == recv_l and not s2["lhs"].get("p") and s2["rv"]["k"] == "Ref":
+                                pr2 = s2["rv"]["place"].get("p") or []
+                                if s2["rv"]["place"]["l"] == 1:
+                                    fidx = [k for k, e in enumerate(pr2) if isinstance(e, dict) and "f" in e]
+                                    byref = bool(fidx) and "*" in pr2[fidx[-1] + 1:]
+                    if byref is False:
+                        rep.bad("C19.R3", "reset-on-loop-generator", where,
+                                "the closure that calls reset() owns a COPY of the back-off generator (captured by value: Backoff is Copy), so the "
+                                "loop's generator is never reset: delays keep growing and max_retry_count counts all failures, not consecutive ones")
+                    elif byref:
+                        rep.ok("C19.R3", "reset-on-loop-generator", where, "reset() acts on the generator captured by mutable reference")
+                    else:
+                        rep.bad("C19.R3", "reset-on-loop-generator", where, "cannot determine how the closure captures the back-off generator (fail closed)")
                 (rep.ok if ok else rep.bad)("C19.R3", "reset-after-connect-only", where,
                                             "reset() reachable only after a successful handshake" if ok else
                                             "Backoff::reset is called outside the continuation of a successful connection (back-off would restart from the shortest delay although no connection was established)")
